@@ -182,11 +182,20 @@ def expr(w, x, depth, top=False):
         w.w("]")
     elif e == "obj":
         w.w("{")
-        for i, (k, v) in enumerate(zip(x["ks"], x["vs"])):
+        kinds = x.get("kd") or ["init"] * len(x["ks"])
+        for i, (k, kd, v) in enumerate(zip(x["ks"], kinds, x["vs"])):
             if i:
                 w.w(", ")
-            w.w(ident(k) + ": ")
-            expr(w, v, depth, top=(v["e"] != "seq"))
+            if kd == "init":
+                w.w(ident(k) + ": ")
+                expr(w, v, depth, top=(v["e"] != "seq"))
+            else:                                   # accessor: get k() {...} / set k(p) {...}
+                if v["e"] != "fun" or v["arrow"]:
+                    raise RenderError("accessor needs a function")
+                w.w(kd + " " + ident(k) + "(" + ", ".join(ident(p) for p in v["params"]) + ") {")
+                body(w, v["body"], depth + 1)
+                w.start(depth)
+                w.w("}")
         w.w("}")
     elif e == "seq":
         for i, a in enumerate(x["a"]):
